@@ -47,7 +47,9 @@ def scenarios(ctx):
     for name, cfg in cfgs.items():
         for fl in flagsets:
             for pre in pres:
-                if ctx.quick and (hash((name, str(fl), pre)) % 3) and not (name == "valid" or pre in ("present", "present-long")):
+                # quick tier: a third of the remaining combinations, chosen by the seed (reproducible: no salted hash)
+                import zlib
+                if ctx.quick and ((zlib.crc32(("%s|%s|%s" % (name, sorted(fl), pre)).encode()) + ctx.seed) % 3) and not (name == "valid" or pre in ("present", "present-long")):
                     continue
                 outp = "outdir/sub/gen.go" if pre == "parent-missing" else "out/gen.go"
                 out.append({"name": "%s|%s|%s" % (name, ",".join(sorted(fl)) or "-", pre), "files": {"cfg/a.yaml": gen.yaml_doc(cfg)},
